@@ -4,7 +4,7 @@
 N=$1; K=$2
 SRC=/tmp/benign-$N/BENIGN/$K
 OUT=/verif/benign/$N-$K
-mkdir -p $OUT; cp $SRC/patch.diff $SRC/meta.json $OUT/ 2>/dev/null
+mkdir -p $OUT; [ -d $SRC ] && cp $SRC/patch.diff $SRC/meta.json $OUT/ 2>/dev/null
 WT=$(mktemp -d /tmp/govc-benign.XXXX)
 git -C /repo worktree add -q --detach $WT HEAD
 (cd $WT && git apply $OUT/patch.diff) || { echo "$N-$K: patch does not apply"; git -C /repo worktree remove --force $WT; exit 2; }
